@@ -333,6 +333,14 @@ def check_custom(t, m, names, nodes, known, ctx):
                                "nodeattr": lambda v: (None if v % 2 else 'shape=box, label="%s"' % v) if v % 3 else "",
                                "edgeattr": lambda a, b: (None if b % 2 else "label=%d_%d" % (a, b)) if b % 3 else "",
                                "edgetype": lambda a, b: "--" if b % 3 else "-x-"})
+    # indent is a plain prefix (blank option, option with several physical lines)
+    odd = ["", "a=1;\nb=2;", "  "]
+    e = mk(exps["dot"], nodes[0], options=odd, indent=3)
+    lines = list(e)
+    t.c["custom_function_exports"] += 1
+    if lines[1:4] != ["   " + o for o in odd]:
+        t.violation("C12: indent is not a plain prefix of blank / multi-line option lines", dict(ctx, engine="E2", module=MOD, exporter="dot",
+                    custom=True, start=0, stop=[], filtered_out=[], maxlevel=None, names=names, observed=lines[:5]))
     # esc(): recoverable and injective on the whole name alphabet
     from anytree.exporter import DotExporter
 
